@@ -105,6 +105,20 @@ CLAIMS = {
    note="Only the code up to the first suspension of each handler is executed (every arm awaits the database); the SQL row filters by room behind the arms and the "
         "maintenance of allowed_room across several events (no revocation while connected) are outside the claim. tokio Mutex::lock is modelled uncontended.",
    design='DESIGN.md §3 C08'),
+ 'C03': dict(
+   level='model_checking',
+   text="Version-selection kernel only. Node::filter_existing - the function that decides, for every row identifier a peer announces, whether the announced version "
+        "replaces the stored one - is executed from MIR with the SQL cursor replaced by symbolic rows (prepare / query / rows.next / row.get return the rows the driver "
+        "supplies) and Vec<u8> ordering abstracted by an injective rank; the HashSet of identifiers is modelled with the id-only equality of NodeIdentifier, which is "
+        "itself checked against the real PartialEq impl. The function is run two and three times with the roles of the versions exchanged and z3 shows: the same "
+        "version is never requested again; of two different versions of a row exactly one replaces the other (nobody keeps his own, nobody swaps for ever); "
+        "a over b and b over c implies a over c (the winner does not depend on the order of arrival); the decision for a row does not depend on the other rows of the "
+        "batch; an identifier that is not stored is always requested and the replacement names the stored row. Sampled paths and counterexamples are replayed on the "
+        "real function over an in-memory SQLite.",
+   note="This is the last-writer-wins core of convergence, not convergence: the async pull (synchronise_room*), the daily-log comparison that decides which days are "
+        "exchanged, fetching / validating / writing the selected rows, edges and deletion records are outside (SQL and network). That SELECT ... WHERE id IN (...) "
+        "returns exactly the stored rows with those ids is assumed.",
+   design='DESIGN.md §3 C03'),
  'C19': dict(
    level='model_checking',
    text="Handshake and invitation-consumption kernels. (a) PeerManager::invite_accepted (an async fn over six database awaits) is executed from MIR to completion in one "
@@ -158,7 +172,6 @@ CLAIMS = {
 }
 
 NA = {
- 'C03': "convergence lives in async pull code over SQLite row loops (synchronise_room*, filter_existing); no pure function to execute symbolically",
  'C05': "the meaning of generated SQL is SQLite's; no implementation-side evaluator to encode",
  'C11': "needs several replicas, fetch-selection SQL and the async pull; the Rust kernel has no tombstone input",
  'C13': "crash points / WAL durability / rollback are SQLite behaviour behind FFI; rusqlite::Connection cannot be made symbolic",
